@@ -16,9 +16,9 @@ def plan(tier: str, seed: int) -> Plan:
     for fn, n, plumb in (("path_cmd", 15, [0, 7]), ("pointer_cmd", 13, [1, 6]), ("patch_cmd", 12, [0, 2])):
         step = 3 if fn == "path_cmd" else 4
         for lo in range(0, n, step):
-            conds.append(Condition(f"{fn}:semantics:{lo}-{lo + step - 1}", "cli", H, fn, {"mode": "semantics", "lo": lo, "hi": lo + step - 1, "ndocs": 5 if thorough else 3}, T,
+            conds.append(Condition(f"{fn}:semantics:{lo}-{lo + step - 1}", "cli", H, fn, {"mode": "semantics", "lo": lo, "hi": lo + step - 1, "ndocs": 6 if thorough else 4}, T,
                                    required=False,
-                                   bounds=f"expressions {lo}..{lo + step - 1} of the {n}-entry pool x 5 documents (object, array, truncated, string, empty) x "
+                                   bounds=f"expressions {lo}..{lo + step - 1} of the {n}-entry pool x 4 (thorough 6) documents (object, array, truncated, not UTF-8, string, empty) x "
                                           "{no-unicode-escape, debug, type checks / uri-decode, expression inline|file}; output options fixed"))
         conds.append(Condition(f"{fn}:plumbing", "cli", H, fn, {"mode": "plumbing", "plumb_e": plumb}, T, required=False,
                                bounds="every option combination (pretty, output stdout|file, document file|stdin, ...) x one accepted and one rejected "
